@@ -40,7 +40,14 @@ SPECS = [
     ("where_", "skchange/utils/numba/general.py", "where",
      {"intervals": "List (Nat × Nat)", "start": "Option Nat", "end": "Option Nat", "i": "Nat", "val": "Bool"},
      [("indicator", "List Bool")], "List (Nat × Nat)"),
+    ("mw_changepoints", "skchange/change_detectors/moving_window.py", "get_moving_window_changepoints",
+     {"detection_intervals": "List (Nat × Nat)", "changepoints": "List Nat", "interval": "(Nat × Nat)", "start": "Nat", "end": "Nat",
+      "cpt": "Nat"},
+     [("scores", "Arr α"), ("threshold", "α"), ("min_detection_interval", "Nat")], "List Nat"),
 ]
+# translated functions that later ones may call: python name -> (lean name, argument types, result type)
+CALLABLE = {"where": ("where_", ["List Bool"], "List (Nat × Nat)")}
+GENERIC = "{α : Type} [LT α] [DecidableLT α] "
 KEYWORDS = {"end": "end_", "from": "from_", "at": "at_", "where": "where_", "then": "then_", "do": "do_", "in": "in_"}
 OPT = "Option Nat"
 
@@ -51,12 +58,27 @@ def nm(x):
 
 class Fn:
     def __init__(self, lean, fn, types, params, rettype):
-        self.lean, self.fn, self.types, self.params, self.rettype = lean, fn, dict(types), params, rettype
+        self.lean, self.fn, self.types, self.params, self.rettype = lean if lean.endswith("_") else lean + "_", fn, dict(types), params, rettype
+        self.name = lean
         for p, t in params:
             self.types[p] = t
+        self.generic = any("α" in t for _, t in params)
         self.aux = []  # generated auxiliary definitions (bodies, loops)
         self.k = 0
         self.kl = 0  # loops are numbered separately so that their names do not depend on temporaries
+
+    def psig(self):
+        """binders for the function's parameters (an array is read as its index function and its length)"""
+        out = []
+        for p, t in self.params:
+            if t.startswith("Arr "):
+                out.append(f"({nm(p)} : Nat → {t[4:]}) ({nm(p)}_n : Nat)")
+            else:
+                out.append(f"({nm(p)} : {t})")
+        return (GENERIC if self.generic else "") + " ".join(out)
+
+    def pargs(self):
+        return " ".join(f"{nm(p)} {nm(p)}_n" if t.startswith("Arr ") else nm(p) for p, t in self.params)
 
     # ---- expressions -------------------------------------------------------------------------
     def typeof(self, e):
@@ -73,6 +95,17 @@ class Fn:
                 return "Nat"
         if isinstance(e, ast.Call) and isinstance(e.func, ast.Name) and e.func.id == "len":
             return "Nat"
+        if isinstance(e, ast.Call) and isinstance(e.func, ast.Name) and e.func.id in CALLABLE:
+            return CALLABLE[e.func.id][2]
+        if self._is_argmax_slice(e):
+            return "Nat"
+        if isinstance(e, ast.Subscript) and isinstance(e.value, ast.Name) and isinstance(e.slice, ast.Constant) \
+                and isinstance(e.slice.value, int) and self._ty(e.value.id).startswith("("):
+            parts = _split_prod(self._ty(e.value.id))
+            if 0 <= e.slice.value < len(parts):
+                return parts[e.slice.value]
+        if isinstance(e, ast.Compare) and len(e.ops) == 1 and isinstance(e.left, ast.Name) and self.types.get(e.left.id, "").startswith("Arr "):
+            return "List Bool"
         if isinstance(e, ast.BinOp):
             return "Nat"
         if isinstance(e, (ast.BoolOp, ast.Compare)) or (isinstance(e, ast.UnaryOp) and isinstance(e.op, ast.Not)):
@@ -98,9 +131,44 @@ class Fn:
             return f"(← {s})"  # None where an int is needed: Python raises -> none
         raise Unsupported(f"cannot use {have} as {want}")
 
+    def _is_argmax_slice(self, e):
+        return (isinstance(e, ast.Call) and isinstance(e.func, ast.Attribute) and isinstance(e.func.value, ast.Name)
+                and e.func.value.id == "np" and e.func.attr == "argmax" and len(e.args) == 1 and not e.keywords
+                and isinstance(e.args[0], ast.Subscript) and isinstance(e.args[0].value, ast.Name)
+                and self.types.get(e.args[0].value.id, "").startswith("Arr ") and isinstance(e.args[0].slice, ast.Slice)
+                and e.args[0].slice.step is None and e.args[0].slice.lower is not None and e.args[0].slice.upper is not None)
+
     def _raw(self, e):
         if isinstance(e, ast.Name):
+            if self.types.get(e.id, "").startswith("Arr "):
+                raise Unsupported("an array used as a value")
             return nm(e.id)
+        if isinstance(e, ast.Call) and isinstance(e.func, ast.Name) and e.func.id in CALLABLE:
+            lean, argt, _ = CALLABLE[e.func.id]
+            if len(e.args) != len(argt) or e.keywords:
+                raise Unsupported("call arity")
+            return f"(← {lean} " + " ".join(self.expr(a, t) for a, t in zip(e.args, argt)) + ")"
+        if self._is_argmax_slice(e):
+            a = e.args[0]
+            return f"(← pyArgmaxSlice {nm(a.value.id)} {nm(a.value.id)}_n {self.expr(a.slice.lower, 'Nat')} {self.expr(a.slice.upper, 'Nat')})"
+        if isinstance(e, ast.Subscript) and isinstance(e.value, ast.Name) and isinstance(e.slice, ast.Constant) \
+                and isinstance(e.slice.value, int) and self._ty(e.value.id).startswith("("):
+            k = len(_split_prod(self._ty(e.value.id)))
+            i = e.slice.value
+            if not 0 <= i < k:
+                raise Unsupported("tuple index")
+            return f"{nm(e.value.id)}" + ".2" * i + (".1" if i < k - 1 else "")
+        if isinstance(e, ast.Compare) and len(e.ops) == 1 and isinstance(e.left, ast.Name) and self.types.get(e.left.id, "").startswith("Arr "):
+            # elementwise comparison of an array with a scalar: the list of truth values
+            el = self.types[e.left.id][4:]
+            b = e.comparators[0]
+            if not (isinstance(b, ast.Name) and self._ty(b.id) == el):
+                raise Unsupported("array compared with a non-scalar")
+            a = nm(e.left.id)
+            rel = {ast.Gt: f"{nm(b.id)} < {a} t", ast.Lt: f"{a} t < {nm(b.id)}"}.get(type(e.ops[0]))
+            if rel is None:
+                raise Unsupported("elementwise comparison " + type(e.ops[0]).__name__)
+            return f"((List.range {a}_n).map (fun t => decide ({rel})))"
         if isinstance(e, ast.Constant):
             if e.value is None:
                 return "none"
@@ -225,30 +293,41 @@ class Fn:
                 self.types.setdefault(vv, el)
                 if iv:
                     self.types.setdefault(iv, "Nat")
+                # variables that live inside this loop body only (assigned there, never mentioned outside the loop)
+                outside = set()
+                for other in self.fn.body:
+                    for n in ast.walk(other):
+                        if n is st:
+                            continue
+                    if other is not st:
+                        outside |= {x.id for x in ast.walk(other) if isinstance(x, ast.Name)}
+                local = [v for v in self.assigned(st.body) if v not in outside and v not in (iv, vv)]
+                state = [v for v in state if v not in local]
                 missing = [v for v in state if v not in declared]
                 if missing:
                     raise Unsupported(f"loop state variable(s) {missing} not initialised before the loop")
                 sty_t = " × ".join(self._ty(v) for v in state)
                 pat = ", ".join(nm(v) for v in state)
-                args = (f"({nm(iv)} : Nat) " if iv else "") + f"({nm(vv)} : {el}) " + " ".join(f"({nm(v)}0 : {self._ty(v)})" for v in state)
+                args = self.psig() + " " + (f"({nm(iv)} : Nat) " if iv else "") + f"({nm(vv)} : {el}) " + " ".join(f"({nm(v)}0 : {self._ty(v)})" for v in state)
                 inner_declared = set(state)
                 body = [f"  let mut {nm(v)} := {nm(v)}0" for v in state]
                 body += self.stmts(st.body, 1, state, inner_declared)
                 body.append(f"  return ({pat})")
                 self.aux.append(f"def {self.lean}body{k} {args} : Option ({sty_t}) := do\n" + "\n".join(body))
-                call = f"{self.lean}body{k} " + (f"{nm(iv)} " if iv else "") + f"{nm(vv)} " + " ".join(nm(v) for v in state)
+                pa = self.pargs()
+                call = f"{self.lean}body{k} {pa} " + (f"{nm(iv)} " if iv else "") + f"{nm(vv)} " + " ".join(nm(v) for v in state)
                 if iv:
                     self.aux.append(
-                        f"def {self.lean}loop{k} : List {el} → Nat → ({sty_t}) → Option ({sty_t})\n"
+                        f"def {self.lean}loop{k} {self.psig()} : List {el} → Nat → ({sty_t}) → Option ({sty_t})\n"
                         f"  | [], _, st => some st\n"
-                        f"  | {nm(vv)} :: rest, {nm(iv)}, ({pat}) => ({call}).bind (fun st => {self.lean}loop{k} rest ({nm(iv)} + 1) st)")
-                    out.append(f"{pad}({pat}) ← {self.lean}loop{k} {self.expr(seq)} 0 ({pat})")
+                        f"  | {nm(vv)} :: rest, {nm(iv)}, ({pat}) => ({call}).bind (fun st => {self.lean}loop{k} {pa} rest ({nm(iv)} + 1) st)")
+                    out.append(f"{pad}({pat}) ← {self.lean}loop{k} {pa} {self.expr(seq)} 0 ({pat})")
                 else:
                     self.aux.append(
-                        f"def {self.lean}loop{k} : List {el} → ({sty_t}) → Option ({sty_t})\n"
+                        f"def {self.lean}loop{k} {self.psig()} : List {el} → ({sty_t}) → Option ({sty_t})\n"
                         f"  | [], st => some st\n"
-                        f"  | {nm(vv)} :: rest, ({pat}) => ({call}).bind (fun st => {self.lean}loop{k} rest st)")
-                    out.append(f"{pad}({pat}) ← {self.lean}loop{k} {self.expr(seq)} ({pat})")
+                        f"  | {nm(vv)} :: rest, ({pat}) => ({call}).bind (fun st => {self.lean}loop{k} {pa} rest st)")
+                    out.append(f"{pad}({pat}) ← {self.lean}loop{k} {pa} {self.expr(seq)} ({pat})")
             elif isinstance(st, ast.Return):
                 out.append(f"{pad}return {self.expr(st.value, self.rettype)}")
             else:
@@ -280,8 +359,7 @@ class Fn:
                 tnames = [x.id for x in ast.walk(st.target) if isinstance(x, ast.Name)]
                 state = [v for v in state if v not in tnames]
         lines = self.stmts(body, 1, state, set())
-        sig = " ".join(f"({nm(p)} : {t})" for p, t in self.params)
-        main = f"def {self.lean} {sig} : Option ({self.rettype}) := do\n" + "\n".join(lines)
+        main = f"def {self.name} {self.psig()} : Option ({self.rettype}) := do\n" + "\n".join(lines)
         return "\n\n".join(self.aux + [main])
 
 
@@ -304,14 +382,24 @@ def _split_prod(t):
     return parts
 
 
-PRELUDE = """/-- Python `a - b` on non-negative ints, read as naturals: a negative result leaves the modelled subset -/
+PRELUDE = """/-- first position of the maximum of `a` on `[i, i+len)` given the best so far `b` -/
+def pyArgmaxFrom {α : Type} [LT α] [DecidableLT α] (a : Nat → α) : Nat → Nat → Nat → Nat
+  | _, 0, b => b
+  | i, len + 1, b => if a b < a i then pyArgmaxFrom a (i + 1) len i else pyArgmaxFrom a (i + 1) len b
+
+/-- `np.argmax(a[lo:hi])` for an array of length `n`: the position, relative to `lo`, of the first maximum of the slice
+    (the slice is clipped to the array); numpy raises on an empty slice -/
+def pyArgmaxSlice {α : Type} [LT α] [DecidableLT α] (a : Nat → α) (n lo hi : Nat) : Option Nat :=
+  if lo < min hi n then some (pyArgmaxFrom a (lo + 1) (min hi n - lo - 1) lo - lo) else none
+
+/-- Python `a - b` on non-negative ints, read as naturals: a negative result leaves the modelled subset -/
 def pySub (a b : Nat) : Option Nat := if b ≤ a then some (a - b) else none
 """
 
 
 def stub(lean, params, rettype):
-    sig = " ".join(f"({nm(p)} : {t})" for p, t in params)
-    return f"def {lean} {sig} : Option ({rettype}) :=\n  let _ := ({', '.join(nm(p) for p, _ in params)})\n  none"
+    f = Fn(lean, None, {}, params, rettype)
+    return f"def {lean} {f.psig()} : Option ({rettype}) :=\n  none"
 
 
 HEAD = ("/-! GENERATED by harness/translate_loops.py from /repo's working tree — do not edit. -/\n"
